@@ -102,6 +102,7 @@ func (c11child) Exec(op string) string {
 		}
 		return recoverStr(func() string {
 			rig := hx.NewRig(2, pbredis.ReadStrategy_MASTER, "127.0.0.1:1")
+			defer hx.DropScopes(rig.ScopeName())
 			rig.SetSlot(0, 16383, hx.NodeAddr(0), nil)
 			raw := rig.Handle(hx.Bulks([]byte("get"), []byte("k")))
 			sent := rig.Drain()
@@ -137,6 +138,7 @@ func (c11child) Exec(op string) string {
 		}
 		return recoverStr(func() string {
 			rig := hx.NewRig(2, pbredis.ReadStrategy_MASTER)
+			defer hx.DropScopes(rig.ScopeName())
 			if err := rig.Refresh(&redis.RespValue{Type: redis.BulkString, Text: text}); err != nil {
 				return "err"
 			}
@@ -154,6 +156,7 @@ func (c11child) Exec(op string) string {
 			c11seq++
 			rig := redis.VerifNewRig(fmt.Sprintf("c11-%d-%d", os.Getpid(), c11seq), hx.RedisConfig(pbredis.ReadStrategy_MASTER, &pbredis.Compression{Enable: f[1] == "e", Threshold: 1}),
 				[]*host.Host{host.New(hx.NodeAddr(0)), host.New(hx.NodeAddr(1))}, []string{hx.NodeAddr(0), hx.NodeAddr(1)})
+			defer hx.DropScopes(rig.ScopeName())
 			rig.SetSlot(0, 16383, hx.NodeAddr(0), nil)
 			cmd := "get"
 			if f[2] == "a" {
@@ -184,6 +187,7 @@ func (c11child) Exec(op string) string {
 		}
 		return recoverStr(func() string {
 			rig := hx.NewRig(2, pbredis.ReadStrategy_MASTER)
+			defer hx.DropScopes(rig.ScopeName())
 			rig.SetSlot(0, 16383, hx.NodeAddr(0), nil)
 			// backend pump: answer everything that gets forwarded with +OK
 			stop := make(chan struct{})
